@@ -71,7 +71,10 @@ func bitsEqual(a, b []float64) bool {
 // runHist runs the real pipeline. The code under test sees ONE boundary slice `in` (as it sees the runtime's
 // own, shared, slice): the re-bucketing is called twice on it, then the histogram is built and updated with it.
 // unchanged: `in` is still bit-identical to the private copy ib afterwards; same: both calls returned the same.
-func runHist(unit string, ib []float64, hasSum bool, ups []upd) (panicked bool, hb []float64, outs []wr, unchanged, same bool) {
+// After every update the source histogram's Counts are overwritten in place, as the next metrics.Read does with
+// the storage behind a *Float64Histogram: Write must expose the counts as they were at update time.
+// gathered: the histogram, registered with a pedantic registry, is gathered without error and with the same count.
+func runHist(unit string, ib []float64, hasSum bool, ups []upd) (panicked bool, hb []float64, outs []wr, unchanged, same, gathered bool) {
 	defer func() {
 		if e := recover(); e != nil {
 			panicked = true
@@ -87,6 +90,9 @@ func runHist(unit string, ib []float64, hasSum bool, ups []upd) (panicked bool, 
 	for _, u := range ups {
 		his := &metrics.Float64Histogram{Counts: append([]uint64{}, u.counts...), Buckets: in}
 		h.Update(his, u.sum)
+		for k := range his.Counts { // the runtime refills the same storage
+			his.Counts[k] = his.Counts[k]*3 + uint64(k) + 7
+		}
 		var m dto.Metric
 		if err := h.Write(&m); err != nil {
 			panic(err)
@@ -103,10 +109,16 @@ func runHist(unit string, ib []float64, hasSum bool, ups []upd) (panicked bool, 
 		outs = append(outs, w)
 	}
 	unchanged = bitsEqual(in, ib)
+	reg := prometheus.NewPedanticRegistry()
+	if err := reg.Register(h.Collector()); err == nil {
+		if mfs, err := reg.Gather(); err == nil && len(mfs) == 1 && len(mfs[0].Metric) == 1 && mfs[0].Metric[0].Histogram != nil {
+			gathered = len(outs) == 0 || mfs[0].Metric[0].Histogram.GetSampleCount() == outs[len(outs)-1].count
+		}
+	}
 	return
 }
 
-func histTerm(unit int, ib []float64, hasSum bool, ups []upd, p bool, hb []float64, outs []wr, unchanged, same bool) string {
+func histTerm(unit int, ib []float64, hasSum bool, ups []upd, p bool, hb []float64, outs []wr, unchanged, same, gathered bool) string {
 	us := make([]string, len(ups))
 	for i, u := range ups {
 		cs := make([]string, len(u.counts))
@@ -125,7 +137,7 @@ func histTerm(unit int, ib []float64, hasSum bool, ups []upd, p bool, hb []float
 			}
 			ws[k] = emit.Tup(emit.U(o.count), emit.F(o.sum), emit.L(bk))
 		}
-		impl = emit.C(1, emit.FL(hb), emit.L(ws), emit.B(unchanged), emit.B(same))
+		impl = emit.C(1, emit.FL(hb), emit.L(ws), emit.B(unchanged), emit.B(same), emit.B(gathered))
 	}
 	return emit.C(0, emit.I(unit), emit.FL(ib), emit.B(hasSum), emit.L(us), impl)
 }
@@ -418,7 +430,7 @@ func streamHist(c *cli.Ctx, r *emit.Rng) error {
 			ups[k] = upd{counts: genCounts(r, len(ib)-1, prev), sum: r.AnyFloat()}
 			prev = ups[k].counts
 		}
-		p, hb, outs, unch, same := runHist(unitNames[unit], ib, hasSum, ups)
+		p, hb, outs, unch, same, gath := runHist(unitNames[unit], ib, hasSum, ups)
 		pre := shapeOK(ib) && survives(unit, ib)
 		tags := []string{tag, "unit:" + unitNames[unit]}
 		if negInf {
@@ -442,6 +454,9 @@ func streamHist(c *cli.Ctx, r *emit.Rng) error {
 		if hasSum {
 			tags = append(tags, "has-sum")
 		}
+		if !p && len(hb) >= 2 && hb[1] <= 0 {
+			tags = append(tags, "first-upper-bound:non-positive")
+		}
 		if !p && len(hb) == len(fs)+1 && unit != 2 {
 			tags = append(tags, "reduced:nothing-merged-by-reBucketExp")
 		}
@@ -451,7 +466,7 @@ func streamHist(c *cli.Ctx, r *emit.Rng) error {
 				nz++
 			}
 		}
-		w.Add(histTerm(unit, ib, hasSum, ups, p, hb, outs, unch, same), pre && !p && len(fs) >= 3 && nz >= 2, tags...)
+		w.Add(histTerm(unit, ib, hasSum, ups, p, hb, outs, unch, same, gath), pre && !p && len(fs) >= 3 && nz >= 2, tags...)
 	}
 	return w.Flush()
 }
@@ -525,14 +540,14 @@ func streamMalformed(c *cli.Ctx, r *emit.Rng) error {
 		for q := range ups {
 			ups[q] = upd{counts: genCounts(r, ncounts, nil), sum: r.AnyFloat()}
 		}
-		p, hb, outs, unch, same := runHist(unitNames[unit], ib, hasSum, ups)
+		p, hb, outs, unch, same, gath := runHist(unitNames[unit], ib, hasSum, ups)
 		tags := []string{tag, "unit:" + unitNames[unit]}
 		if p {
 			tags = append(tags, "result:panic")
 		} else {
 			tags = append(tags, "result:ok")
 		}
-		w.Add(histTerm(unit, ib, hasSum, ups, p, hb, outs, unch, same), false, tags...)
+		w.Add(histTerm(unit, ib, hasSum, ups, p, hb, outs, unch, same, gath), false, tags...)
 	}
 	return w.Flush()
 }
